@@ -218,21 +218,21 @@ def filterProg (v : View) (fs : List FilterSpec) : Prog View :=
 theorem filterStep_own {α : Type} (base : Nat) (ix : Arr) (m : Id) (hm : base ≤ m)
     (f : FilterSpec) (k : Prog α) (hk : k.OwnWrites base) :
     (filterStep ix m f k).OwnWrites base := by
-  intro cd
-  unfold filterStep
-  have body : ∀ ad, (if f.viaInv then
+  have body : ∀ cd ad, (if f.viaInv then
       Prog.alloc (List.replicate ix.length 0) fun m2 =>
         .read m2 fun cur2 => .write m2 (f.kern ix cd ad cur2) <|
         .read m fun cur => .read m2 fun inv => .write m (f.merge cur inv) k
     else
       .read m fun cur => .write m (f.kern ix cd ad cur) k).OwnWrites base := by
-    intro ad
+    intro cd ad
     split
     · intro m2 hm2 cur2; exact ⟨hm2, fun cur inv => ⟨hm, hk⟩⟩
     · intro cur; exact ⟨hm, hk⟩
+  intro cd
+  dsimp only
   cases h : f.arg with
-  | none => exact body []
-  | some a => intro ad; exact body ad
+  | none => exact body cd []
+  | some a => intro ad; exact body cd ad
 
 theorem filter_own_writes (v : View) (fs : List FilterSpec) :
     ∀ base, (filterProg v fs).OwnWrites base := by
@@ -261,13 +261,16 @@ theorem filterProgBug_not_own_writes (v : View) (shared : Id) (fs : List FilterS
   have := (h []).1
   omega
 
-/-- a kernel: `mask[i] = 1` iff `col[ix[i]] > 3` -/
-def gt3 : FilterSpec where
-  col := 1
+/-- a clause `col > n`: the kernel sets `mask[i]` where `col[ix[i]] > n` (clauses are or-ed) -/
+def gtSpec (col : Id) (n : Nat) (viaInv : Bool) : FilterSpec where
+  col := col
   arg := none
-  viaInv := false
-  kern := fun ix cd _ _ => ix.map fun i => if cd.getD i 0 > 3 then 1 else 0
-  merge := fun cur _ => cur
+  viaInv := viaInv
+  kern := fun ix cd _ cur =>
+    List.zipWith (fun i b => if b ≠ 0 ∨ cd.getD i 0 > n then 1 else 0) ix cur
+  merge := fun cur inv => List.zipWith (fun x y => if x ≠ 0 then x else 1 - y) cur inv
+
+def gt3 : FilterSpec := gtSpec 1 3 false
 
 /-- store: array 0 is the index, array 1 the data of a column -/
 def store0 : Store := [[0, 1, 2], [5, 2, 9]]
@@ -424,6 +427,7 @@ theorem appendGroup_own {α : Type} (base : Nat) (fns : TableFns) (cmp : List Ar
   · rename_i g hg
     have hgm : g ∈ gs := List.mem_of_getElem? hg
     intro old
+    dsimp only
     split
     · intro g' hg'
       refine ⟨hi.1, hk _ ⟨hi.1, fun x hx => ?_⟩⟩
@@ -439,18 +443,22 @@ theorem groupStep_own {α : Type} (base : Nat) (fns : TableFns) (cmp : List Arr)
   intro cur0
   refine growTable_own base fns _ _ _ hi.1 fun t ht cur => ?_
   have hi' : GInv base (t, st.2) := ⟨ht, hi.2⟩
-  split
-  · exact ⟨ht, hk _ hi'⟩
-  · split
-    · intro g hg
+  dsimp only
+  cases fns.probe cmp cur i with
+  | eden => exact ⟨ht, hk _ hi'⟩
+  | first =>
+    cases collectIx with
+    | false => exact hk _ hi'
+    | true =>
+      intro g hg
       refine ⟨ht, hk _ ⟨ht, fun x hx => ?_⟩⟩
       rcases List.mem_append.1 hx with h | h
       · exact hi.2 x h
       · rw [List.mem_singleton.1 h]; exact hg
-    · exact hk _ hi'
-  · split
-    · exact appendGroup_own base fns cmp t cur i _ _ k hi' hk
-    · exact hk _ hi'
+  | more gi =>
+    cases collectIx with
+    | false => exact hk _ hi'
+    | true => exact appendGroup_own base fns cmp t cur i _ _ k hi' hk
 
 /-- `QFrame.Distinct` → `grouper.Distinct`: table, then `result := make(index.Int, 0, groupCount)` -/
 def distinctProg (v : View) (cmpCols : List Id) (fns : TableFns) : Prog View :=
@@ -496,7 +504,8 @@ theorem groupBy_own_writes (v : View) (cmpCols : List Id) (fns : TableFns) :
     refine loopSt_own base (GInv base) _ (groupStep_own base fns cmp true) _ _ _
       ⟨ht, by simp⟩ fun st _ => ?_
     intro tab
-    refine collect_own base _ (fun init k hk id hid => hk id hid) _ _ fun ss _ => ?_
+    refine collect_own base (fun (init : Arr) k => Prog.alloc init k)
+      (fun init k hk id hid => hk id hid) _ _ fun ss _ => ?_
     intro res hres
     exact ⟨hres, readAll_own base _ _ fun _ => trivial⟩
 
@@ -585,8 +594,10 @@ theorem aggregate_own_writes (groups : List View) (grouped : List Id) (aggs : Li
     ∀ base, (aggregateProg groups grouped aggs).OwnWrites base := by
   intro base
   refine readViews_own base _ _ fun gs fe hfe => ⟨hfe, fun firsts => ?_⟩
-  refine collect_own base _ (fun c k hk d r hr => ⟨hr, hk r hr⟩) _ _ fun newG _ => ?_
-  refine collect_own base _ (fun a k hk => aggOne_own base gs a k hk) _ _ fun newA _ => ?_
+  refine collect_own base (subsetBody firsts) (fun c k hk d r hr => ⟨hr, hk r hr⟩) _ _
+    fun newG _ => ?_
+  refine collect_own base (aggOne gs) (fun a k hk => aggOne_own base gs a k hk) _ _
+    fun newA _ => ?_
   intro cols hcols
   exact ⟨hcols, fun ix hix => ⟨hix, trivial⟩⟩
 
@@ -702,24 +713,25 @@ def store1 : Store := [[0, 1, 2, 3, 4], [2, 3], [7, 8, 7, 7, 8], [10, 20, 30, 40
 def frame1 : View := ⟨0, 0, 5⟩
 
 def history1 : List Op :=
-  [ .filter frame1 [gt3, { gt3 with col := 3, viaInv := true }],
+  [ .filter frame1 [gtSpec 2 7 false, gtSpec 3 25 true],
     .slice frame1 1 4,
     .apply1 ⟨0, 1, 3⟩ 1 1 2 (· + 1),
     .copy 1 0 2,
     .distinct frame1 [2] toyFns,
     .groupBy frame1 [2] toyFns,
     .sort 0,
-    .aggregate [⟨13, 0, 3⟩, ⟨12, 0, 2⟩] [2] [.count, .fn 3 List.sum] ]
+    .aggregate [⟨18, 0, 3⟩, ⟨19, 0, 2⟩] [2] [.count, .fn 3 List.sum] ]
 
-#eval (groupByProg frame1 [2] toyFns).run store1
+#eval ((groupByProg frame1 [2] toyFns).run store1).1
 #eval runAll (history1.map Op.prog) store1
 
-/-- the history really allocates and writes (16 new arrays) … -/
-example : (runAll (history1.map Op.prog) store1).length = 25 := by decide
+/-- the history really allocates and writes (25 new arrays) … -/
+example : (runAll (history1.map Op.prog) store1).length = 29 := by decide
 
-/-- … the group-by inside it computed the groups `{0,2,3}` and `{1,4}` of column 2 … -/
+/-- … the group-by in it grows the table twice, reallocates a group array once and computes the
+    groups `{0,2,3}` and `{1,4}` of column 2 … -/
 example : ((groupByProg frame1 [2] toyFns).run store1).2.1.drop 4 =
-    [[1, 1, 2, 2], [1, 1, 0, 0], [0, 2], [0, 2, 3], [1, 4], [5, 7]] := by decide
+    [[1, 0], [1, 0, 2, 0], [1, 1, 2, 2, 0, 0, 0, 0], [0, 2], [0, 2, 3], [1, 4], [8, 9]] := by decide
 
 /-- … and the four original arrays are as they were (instance of the theorem, and by evaluation) -/
 example : ∀ id, id < 4 →
@@ -728,8 +740,8 @@ example : ∀ id, id < 4 →
 
 example : (runAll (history1.map Op.prog) store1).take 4 = store1 := by decide
 
-/-- replacing the filter by the buggy one breaks persistence of array 1 on the same store -/
-example : ((filterProgBug frame1 1 [gt3]).run store1).2.1.getD 1 [] ≠ store1.getD 1 [] := by
+/-- replacing the filter by the buggy one breaks persistence of array 2 (a column) on the same store -/
+example : ((filterProgBug frame1 2 [gtSpec 2 7 false]).run store1).2.1.getD 2 [] ≠ store1.getD 2 [] := by
   decide
 
 #print axioms bind_own_writes
